@@ -349,7 +349,7 @@ def bin_item(item, seed=0):
                 t.extra["bin_" + status] += 1
                 if any(f > 1 and shape[ax] % f for ax, f in zip(axes, fac)):
                     t.extra["bin_points_with_dropped_remainder"] += 1
-    if shape in ((5, 7), (3, 5, 2), (3, 4, 5)):
+    if (shape, dtype) in (((7,), "float64"), ((5, 7), "int64")):  # present in both tiers: the written-out samples are the same every run
         st, pr, info = check_bin(a, flat, cache, tuple(range(nd)), (2,) * nd, "sum", "copy", "tuple")
         t.sample({"op": "bin", "shape": list(shape), "dtype": dtype, "call": info["call"], "out_shape": info.get("out_shape"), "origin": info.get("origin"), "sampling": info.get("sampling")}, cap=1)
     return t
@@ -855,7 +855,7 @@ def pad_item(item, seed=0):
         for mode in MODES:
             for style in CROP_STYLES:
                 rec("output_shape", widths, mode, style)
-    if shape == (2, 3):
+    if shape == (2, 3) and dtype == "float32":
         st, pr, info = check_pad(a, "output_shape", ((1, 2), (0, 1)), "copy", "all")
         t.sample({"op": "pad+crop", "shape": list(shape), "dtype": dtype, "call": info["call"], "padded_shape": info.get("out_shape"), "crop": [list(crop_spec(1, 2)), list(crop_spec(0, 1))], "cropped_shape": info.get("cropped_shape")}, cap=1)
     if nd <= 2:  # explicit pad_width forms: every (before, after) in {0,1,2}^2 per axis
